@@ -1599,6 +1599,8 @@ class AsyncGraph:
         fs = [n._stop(timeout=timeout) for n in self._async_nodes.values()]
 
         # Initiate stop (this unblocks the root's step, that is waiting for an action).
+        # Publish the stop request first, so that a supervisor step that starts waiting after this point skips.
+        self._synchronizer._must_reset = True
         if len(self._synchronizer.action) > 0:
             self._synchronizer.action[-1].cancel()
 
